@@ -1297,7 +1297,9 @@ class TangentVector(PointPair):
             the standard Minkowski inner product)
 
         """
-        normed_vec = utils.normalize(self.vector, self.minkowski)
+        # utils.normalize works in place: normalize a copy, so that this
+        # tangent vector keeps its length
+        normed_vec = utils.normalize(self.vector.copy(), self.minkowski)
 
         return TangentVector(self.point, normed_vec)
 
@@ -1321,7 +1323,9 @@ class TangentVector(PointPair):
             Isometry taking the "origin" to this tangent vector.
 
         """
-        normed = utils.normalize(self.aux_data, self.minkowski)
+        # utils.normalize works in place: normalize a copy, so that this
+        # tangent vector keeps its length
+        normed = utils.normalize(self.aux_data.copy(), self.minkowski)
 
         # (point, vector) and (-point, -vector) are the same tangent
         # vector: use the one with a future-pointing basepoint, so the
